@@ -131,7 +131,7 @@ TEMPLATE = ("{year}{month}{day}T{hour}{minute}{second}-"
 
 
 def gen_match_case(rng, k):
-    unit = rng.choice([1, 60, 600])
+    unit = rng.choice([1, 60, 600, 3600, 21600])          # up to 6-hour units: spans of several days
     horizon = rng.choice([20, 60, 200])
 
     def fileset(nmax, allow_cover):
@@ -151,12 +151,16 @@ def gen_match_case(rng, k):
     prim = fileset(8, rng.random() < 0.3)
     sec = fileset(8, rng.random() < 0.5)
     mi = rng.choice([None, 0, 0, 1, unit, 3 * unit, 10 * unit])
+    if unit >= 3600 and rng.random() < 0.6:
+        # a day and more (timedelta.seconds != total_seconds there), whole and fractional days
+        mi = rng.choice([86400, 2 * 86400, 86400 + 6 * 3600, 3 * 86400 + 1, 86399, 86401])
+    form = rng.choice(["int", "timedelta", "str"]) if mi else "int"
     if rng.random() < 0.6:
         start, end = 0, (horizon + 10) * unit
     else:
         start = rng.randint(0, horizon) * unit
         end = start + rng.randint(1, horizon) * unit
-    return {"id": k, "prim": prim, "sec": sec, "mi": mi, "start": start, "end": end}
+    return {"id": k, "prim": prim, "sec": sec, "mi": mi, "mi_form": form, "start": start, "end": end}
 
 
 def run_match_impl(case):
@@ -173,7 +177,12 @@ def run_match_impl(case):
             sets.append(FileSet(str(d / TEMPLATE), name=name))
         start, end = T0 + dt.timedelta(seconds=case["start"]), T0 + dt.timedelta(seconds=case["end"])
         try:
-            res = list(sets[0].match(sets[1], start, end, max_interval=case["mi"]))
+            mi = case["mi"]
+            if mi and case.get("mi_form") == "timedelta":
+                mi = dt.timedelta(seconds=mi)
+            elif mi and case.get("mi_form") == "str":
+                mi = f"{mi} seconds" if mi % 3600 else f"{mi // 3600} hours"
+            res = list(sets[0].match(sets[1], start, end, max_interval=mi))
         except Exception as e:  # noqa
             return f"ERR:{type(e).__name__}: {str(e)[:100]}"
 
